@@ -523,7 +523,7 @@ pub fn rewrite(p: &Program, rw: Rw, target: Option<u32>) -> (u32, Option<Program
 }
 
 pub fn cfg() -> GenCfg {
-    GenCfg { max_helpers: 2, max_stmts: 6, simple_helper_permille: 500, ..GenCfg::default() }
+    GenCfg { max_helpers: 2, max_stmts: 6, simple_helper_permille: 500, opt_stress: true, ..GenCfg::default() }
 }
 
 pub fn check(case: &Case, st: &mut Stats, ex: &Excl) -> Result<(), String> {
